@@ -18,7 +18,9 @@ class Validate:
     gfapy.FormatError
       If the content of the field is not valid, according to its required type.
     """
-    fieldname = self.__class__.FIELD_ALIAS.get(fieldname, fieldname)
+    if fieldname not in self._data:
+      # (a tag of the line may be spelled as an alias, e.g. LN in a GFA2 S line)
+      fieldname = self.__class__.FIELD_ALIAS.get(fieldname, fieldname)
     v = self._data.get(fieldname, None)
     if v is None:
       raise gfapy.NotFoundError("Field {} not found".format(fieldname))
